@@ -104,7 +104,7 @@ fn push_values<'s, T: DiffableStr + ?Sized>(
 
 /// Verification hooks (only with `--cfg similar_verif`): the word table of
 /// `MultiLookup`, its `get_original_slices` and `push_values`.
-#[cfg(similar_verif)]
+#[cfg(all(similar_verif, not(similar_verif_no_internals)))]
 #[allow(missing_docs, clippy::type_complexity)]
 pub mod verif_inline_internals {
     use super::{push_values, MultiLookup};
